@@ -117,7 +117,12 @@ pub fn run_scenario(bench: &mut Bench, sc: &Scenario) -> ScenarioOutcome {
         st.push_line(&format!("position fen {}", sc.fen));
         let ms = if sc.forced.is_some() { HUGE_LIMIT.as_millis() as u64 } else { sc.limit_ms };
         if sc.depth < 64 {
-            st.push_line(&format!("go depth {} movetime {}", sc.depth, ms));
+            // both orders occur
+            if sc.key_seed % 2 == 0 {
+                st.push_line(&format!("go depth {} movetime {}", sc.depth, ms));
+            } else {
+                st.push_line(&format!("go movetime {} depth {}", ms, sc.depth));
+            }
         } else {
             st.push_line(&format!("go movetime {}", ms));
         }
@@ -139,6 +144,16 @@ pub fn run_scenario(bench: &mut Bench, sc: &Scenario) -> ScenarioOutcome {
             Outcome::Exit(0) => Outcome::Returned,
             o => o,
         };
+        // `go movetime T`: the budget of that search is T, whatever else the command says
+        // (a depth cap does not switch the clock off); an engine may arm less (overhead)
+        if let Some(rec) = &target_rec {
+            let ms = if sc.forced.is_some() { HUGE_LIMIT.as_millis() as u64 } else { sc.limit_ms };
+            match rec.limit {
+                None => out.violations.push(("no_deadline_armed".into(), format!("go with movetime {} started a search without a time limit", ms))),
+                Some(l) if l.as_millis() as u64 > ms => out.violations.push(("deadline_later_than_movetime".into(), format!("go with movetime {} armed a limit of {} ms", ms, l.as_millis()))),
+                _ => {}
+            }
+        }
         if outcome == Outcome::Returned {
             let bm = st.out_lines.iter().filter(|l| l.starts_with("bestmove")).count();
             if bm != sc.warmup_depths.len() + 1 {
@@ -469,6 +484,10 @@ pub fn run(ctx: &Ctx) -> i32 {
                 s.depth = *rng.pick(&[1u8, 2, 3, 64, 64]);
                 if rng.chance(1, 6) {
                     s.via_uci = true;
+                    // a depth cap far beyond what the budget allows, next to the clock
+                    if rng.chance(1, 2) {
+                        s.depth = *rng.pick(&[20u8, 40, 63]);
+                    }
                 }
                 if rng.chance(1, 4) && !is_explosive {
                     warmups(&mut rng, &pos, &mut s);
@@ -510,6 +529,9 @@ pub fn run(ctx: &Ctx) -> i32 {
                 }
                 if rng.chance(1, 6) {
                     s.via_uci = true;
+                    if rng.chance(1, 2) {
+                        s.depth = *rng.pick(&[20u8, 40, 63]);
+                    }
                 }
                 if rng.chance(1, 5) && !is_explosive {
                     warmups(&mut rng, &pos, &mut s);
@@ -571,7 +593,7 @@ pub fn run(ctx: &Ctx) -> i32 {
     });
     let ev = Evidence {
         level: "fault_enumeration",
-        rule: format!("Positions: one third explosive (constructed promotion races and seeded ones, kept when a depth-1 search exceeds {} nodes), one sixth middlegame positions with a single legal move, the rest seeded playout positions. Per position: forced expiry at every read 1..N/3, log-uniform expiry reads up to 20 000, expiry reads shortly before the end of each iteration of an uninterrupted probe (the last root moves' subtrees), and cost-model runs (per-node cost 1us..5ms, budget 1..30 000 nodes, optional stall jump) in which the deadline passes at a node rather than at a poll; depths 1, 2, 3 and 64; one sixth through `go movetime` and the real uci_loop; a quarter of the sampled runs after one or two earlier depth 2-4 searches (clock-limited or not) on the same engine. Oracle: at most {} nodes entered after the virtual clock first shows start+limit (runs are cut at {} by the step cap), plus a time bound in stall-free runs. A case = a scenario in which the deadline passed before the search ended.", 20 * B, B, 64 * B),
+        rule: format!("Positions: one third explosive (constructed promotion races and seeded ones, kept when a depth-1 search exceeds {} nodes), one sixth middlegame positions with a single legal move, the rest seeded playout positions. Per position: forced expiry at every read 1..N/3, log-uniform expiry reads up to 20 000, expiry reads shortly before the end of each iteration of an uninterrupted probe (the last root moves' subtrees), and cost-model runs (per-node cost 1us..5ms, budget 1..30 000 nodes, optional stall jump) in which the deadline passes at a node rather than at a poll; depths 1, 2, 3 and 64; one sixth through `go movetime T [depth D]` (both token orders, D from 1 to 63) and the real uci_loop, where the limit armed on the timer must exist and not exceed T; a quarter of the sampled runs after one or two earlier depth 2-4 searches (clock-limited or not) on the same engine. Oracle: at most {} nodes entered after the virtual clock first shows start+limit (runs are cut at {} by the step cap), plus a time bound in stall-free runs. A case = a scenario in which the deadline passed before the search ended.", 20 * B, B, 64 * B),
         extra: {
             let mut m = serde_json::Map::new();
             m.insert("bound_B_nodes".into(), json!(B));
